@@ -64,7 +64,8 @@ def model_runs(tier: str) -> T.List[T.Tuple[str, str]]:
         ('sites', mc_cfg(CHEAP, VSD='{0, 1, 3}', BProfiles='{"nowhere", "root1path3"}', NameSeqIds='{"a", "ba"}',
                          WMs='{"default"}')),
         ('forced', mc_cfg(CHEAP, frozen, MaxSteps='2', VXD='{0}', ProvA='{"none", "ovr", "noovr", "broken"}',
-                          BProfiles='{"prov", "provpath1"}', NameSeqIds='{"a", "ab", "ba"}', FFFs='{{}, {"a"}}', MCDirs='{FALSE}')),
+                          BProfiles='{"prov", "provpath1"}', NameSeqIds='{"a", "ab", "ba"}', FFFs='{{}, {"a"}, {"b"}}',
+                          MCDirs='{FALSE}')),
         ('cross', mc_cfg(CHEAP + ('MachineLaws',), frozen, MaxSteps='2', CrossFamily='TRUE', VBIN='{0, 1, 3}',
                          ProvA='{"none", "ovr", "broken"}')),
         ('deep', mc_cfg(DEEP + ('NativeLaws',), VXD='{0}', BProfiles='{"nowhere", "path3"}', NameSeqIds='{"a", "ab"}',
@@ -316,11 +317,13 @@ def main(chk: Check) -> None:
         chk.extra[f'model_{name}'] = {'environments': len(space['envs']), 'statements': len(space['events'])}
         if name == 'deep':
             continue
-        sessions += sessions_from_space(space, 'A' + name[0], 150 if quick else None, 2 if quick else 6, rnd)
+        sessions += sessions_from_space(space, 'A' + name[0], 150 if quick else None, 2 if quick else 8, rnd)
     run_and_judge(chk, [('A', sessions, False),
-                        ('B', random_sessions(800 if quick else 6000, random.Random(f'x08-random-{chk.seed}')), True)],
+                        ('B', random_sessions(800 if quick else 12000, random.Random(f'x08-random-{chk.seed}')), True)],
                   40 if quick else 80)
-    chk.exhaustive = not quick
+    # the model-checking runs are exhaustive within their bounds; the sessions run through meson are a seeded sample
+    # (thorough: every exported environment, 8 sessions each)
+    chk.exhaustive = False
     chk.assumptions += [
         'one wrap per program name; the provider subproject overrides only that name (a provider that fails half way through '
         'several overrides is not modelled)',
